@@ -678,11 +678,11 @@ Definition cmp_case (kind : string) (a b : value) : bytes :=
     match o_label a, o_label b with
     | Ok x, Ok y => s2b "ok " ++ show_cmp (cmp_canonical x y) ++ sp ++ show_bool (label_eqb x y)
     | _, _ => badcase end
-  else if String.eqb kind "reg" then
+  else if String.prefix "reg:" kind then
     match o_reg a, o_reg b with
     | Ok x, Ok y => s2b "ok " ++ show_cmp (reg_cmp x y) ++ sp ++ show_bool (reg_eqb x y)
     | _, _ => badcase end
-  else if String.eqb kind "regp" then
+  else if String.prefix "regp:" kind then
     match o_regp a, o_regp b with
     | Ok x, Ok y => s2b "ok " ++ show_cmp (regp_cmp x y) ++ sp ++ show_bool (regp_eqb x y)
     | _, _ => badcase end
@@ -713,7 +713,7 @@ Definition run_case (op : bytes) (args : list bytes) : bytes :=
   match args with
   | tyb :: rest =>
     let ty := b2s tyb in
-    if String.eqb op "dec" then
+    if String.eqb op "dec" || String.eqb op "decval" then
       match lookup_ty ty, rest with
       | Some t, [b] => show_res (show_decoded ty t) (from_slice (fromv t) b)
       | _, _ => badcase end
@@ -729,7 +729,17 @@ Definition run_case (op : bytes) (args : list bytes) : bytes :=
       match lookup_ty ty, rest with
       | Some t, [b] => roundtrip ty t (tagged_from t) (tagged_to t) b
       | _, _ => badcase end
-    else if String.eqb op "enc" then
+    else if String.eqb op "encdec" then
+      match lookup_ty ty, rest with
+      | Some t, [d] => match (do v <- desc_arg d; odsc t v) with
+                       | Ok x =>
+                         match to_vec (tov t) x with
+                         | Ok b => s2b "ok " ++ show_hex b ++ sp ++ show_res (show_decoded ty t) (from_slice (fromv t) b)
+                         | r => show_res show_hex r
+                         end
+                       | _ => badcase end
+      | _, _ => badcase end
+    else if String.eqb op "enc" || String.eqb op "encval" then
       match lookup_ty ty, rest with
       | Some t, [d] => match (do v <- desc_arg d; odsc t v) with
                        | Ok x => show_res show_hex (to_vec (tov t) x)
